@@ -1062,6 +1062,11 @@ func (e *SpecEnv) lvalue(x ast.Expr) []specLoc {
 // specLoop evaluates a loop-invariant expression at a loop head: source variables
 // are resolved to the current values of their cells.
 func (u *Unit) specLoop(f *Frame, st *State, x ast.Expr, fn *ssa.Function, header int) string {
+	return u.loopEnv(f, st, fn, header).boolOrInt(x)
+}
+
+// loopEnv: specification environment at a loop head (source variables by name).
+func (u *Unit) loopEnv(f *Frame, st *State, fn *ssa.Function, header int) *SpecEnv {
 	vars := map[string]Val{}
 	type cand struct {
 		c   *cellKey
@@ -1095,8 +1100,7 @@ func (u *Unit) specLoop(f *Frame, st *State, x ast.Expr, fn *ssa.Function, heade
 		vars["rangeidx"] = Val{T: fmt.Sprintf("(+ %s 1)", ri.T), Ty: types.Typ[types.Int]}
 	}
 	// results of the function are not available; old() gives entry parameter values
-	env := &SpecEnv{u: u, st: st, old: f.entry, vars: vars, oldVars: f.paramV, pkg: u.ctx.pkgOf(fn), fr: f}
-	return env.boolOrInt(x)
+	return &SpecEnv{u: u, st: st, old: f.entry, vars: vars, oldVars: f.paramV, pkg: u.ctx.pkgOf(fn), fr: f}
 }
 
 func (e *SpecEnv) boolOrInt(x ast.Expr) string {
